@@ -265,6 +265,12 @@ class Real:
                 r(x, torch.ones(self.shape, dtype=torch.float64))
             else:
                 r(x)
+            # the caller's observation buffer is reused after the call (overwritten in place, every other observation): the
+            # reducer must hold what it observed, not a reference to the caller's tensor
+            self._nobs = getattr(self, "_nobs", 0) + 1
+            if self._nobs % 2 == 0:
+                with torch.no_grad():
+                    x.zero_() if x.dtype == torch.bool else x.mul_(0).sub_(7.0)
             return "ok"
         if t == "clear":
             r.clear(keepshape=op[1])
